@@ -25,6 +25,7 @@ BiStreamRequestHandler::handle consumes do_handle's error with a trace only (ret
 paths), that in the handler loop stray uni streams and datagrams return to the select without touching
 the peer map or closing anything while every accept/read error leaves the loop, and that no
 close()/shutdown is reachable from the per-request code.
+The typed-RPC layer between the wire and the handler (Rpc::unary, codecs, Status conversions) has an empty panic inventory (C06.1c, C17.6 re-evaluated); the list of panic-capable calls includes the String / Bytes / slice APIs documented to panic on out-of-range or non-char-boundary arguments.
 """
 TRUSTED = ["third-party bodies are not analysed: matchit::Router::at, bincode::deserialize, tokio-util codec, quinn (stated, not assumed away)",
            "rustls rejects empty certificate chains when client auth is mandatory (try_peer_id unwraps)"]
